@@ -76,3 +76,23 @@ VARIANTS += [
     ("C04-calendar-tz-drop", "C04", DT, "                dt.microsecond,\n                tz=self.tz,\n            )", "                dt.microsecond,\n            )", "ADD.calendar-exit"),
     ("C04-replace-before", "C04", HELP, "    dt = dt.replace(year=year, month=month, day=day)\n\n    return dt + timedelta(", "    dt = dt.replace(year=year, month=month, day=dt.day)\n\n    return dt + timedelta(", "ORDER.clamp"),
 ]
+
+IV = "src/pendulum/interval.py"
+VARIANTS += [
+    ("C05-clean", "C05", None, "", "", None),
+    ("C05-sub-swapped", "C05", DT, "        return other.diff(self, False)\n\n    def __rsub__", "        return self.diff(other, False)\n\n    def __rsub__", "DIRECTION"),
+    ("C05-rsub-swapped", "C05", DT, "        return self.diff(other, False)\n\n    def __add__", "        return other.diff(self, False)\n\n    def __add__", "DIRECTION"),
+    ("C05-diff-swapped", "C05", DT, "return Interval(self, dt, absolute=abs)", "return Interval(dt, self, absolute=abs)", "DIRECTION"),
+    ("C05-date-sub-swapped", "C05", DATE, "        return dt.diff(self, False)", "        return self.diff(dt, False)", "DIRECTION"),
+    ("C05-end-fold-dropped", "C05", IV, "                    tzinfo=end.tzinfo,\n                    fold=end.fold,\n", "                    tzinfo=end.tzinfo,\n", "FLOW.delta"),
+    ("C05-cross-offset", "C05", IV, "offset = cast(timedelta, cast(datetime, start).utcoffset())", "offset = cast(timedelta, cast(datetime, end).utcoffset())", "FLOW.delta"),
+    ("C05-plus-offset", "C05", IV, "_end = cast(_T, (_end - offset).replace(tzinfo=None))", "_end = cast(_T, (_end + offset).replace(tzinfo=None))", "FLOW.delta"),
+    ("C05-delta-reversed", "C05", IV, "delta: timedelta = _end - _start", "delta: timedelta = _start - _end", "FLOW.delta"),
+    ("C05-guard-eq", "C05", IV, "and _start.tzinfo is _end.tzinfo", "and _start.tzinfo == _end.tzinfo", "FLOW.guard"),
+    ("C05-in-hours-round", "C05", DUR, "        return int(self.total_hours())", "        return round(self.total_hours())", "TRUNC.in"),
+    ("C05-total-days-hour", "C05", DUR, "        return self.total_seconds() / SECONDS_PER_DAY", "        return self.total_seconds() / SECONDS_PER_HOUR", "UNITS.total"),
+    ("C05-swap-ge", "C05", IV, "        if absolute and start > end:\n            end, start = start, end\n\n        _start = start", "        if absolute and start < end:\n            end, start = start, end\n\n        _start = start", "FLOW.swap"),
+    ("C05-seconds-days", "C05", IV, "return super().__new__(cls, seconds=delta.total_seconds())", "return super().__new__(cls, seconds=delta.seconds)", "FLOW.duration"),
+    ("C05-abs-false", "C05", IV, "return self.__class__(self.start, self.end, absolute=True)", "return self.__class__(self.start, self.end, absolute=False)", "ABS"),
+    ("C05-naive-min-sec-swap", "C05", DT, "                    other.minute,\n                    other.second,\n                    other.microsecond,\n                )\n            else:\n                other = self.instance(other)\n\n        return other.diff(self, False)", "                    other.second,\n                    other.minute,\n                    other.microsecond,\n                )\n            else:\n                other = self.instance(other)\n\n        return other.diff(self, False)", "RECON.slot"),
+]
